@@ -297,3 +297,45 @@ package signing
 //@   ensures [C05.a-failing-opening-or-proof-blames-exactly-its-sender] (result != nil && !old(round.started) && len(result.culprits) > 0) ==> (len(result.culprits) == 1 && peerOf(round, result.culprits[0]))
 //@   ensures [C01.nothing-sent-on-error] result != nil ==> sent(old(round.out)) == old(sent(round.out))
 //@   loop 0 invariant round.started && R != nil && validPoint(R) && R.curve == round.Parameters.ec && sent(round.out) == old(sent(round.out))
+
+// round_7.go: open every peer's (V_j, A_j) commitment and check both proofs.
+//@ define sg5slot(m) = (!isnil(m) && istype(msgcontent(m), "*ecdsa/signing.SignRound5Message") && cast(msgcontent(m), "*ecdsa/signing.SignRound5Message") != nil)
+//@ define sg6slot(m) = (!isnil(m) && istype(msgcontent(m), "*ecdsa/signing.SignRound6Message") && cast(msgcontent(m), "*ecdsa/signing.SignRound6Message") != nil && len(cast(msgcontent(m), "*ecdsa/signing.SignRound6Message").DeCommitment) <= 8192)
+//@ func (*round7).Start
+//@   props C06 C05 C01
+//@   requires round != nil && round.round6 != nil && round.round6.round5 != nil && round.round6.round5.round4 != nil && round.round6.round5.round4.round3 != nil && round.round6.round5.round4.round3.round2 != nil && round.round6.round5.round4.round3.round2.round1 != nil && round.round6.round5.round4.round3.round2.round1.base != nil && ecSignWF(round)
+//@   requires [rounds-5-and-6-complete] forall j in 0..sgN(round) :: (j != sgI(round) ==> (sg5slot(round.temp.signRound5Messages[j]) && sg6slot(round.temp.signRound6Messages[j])))
+//@   requires [own-values] round.temp.bigR != nil && validPoint(round.temp.bigR) && round.temp.bigR.curve == round.Parameters.ec && round.temp.bigAi != nil && wfPoint(round.temp.bigAi) && round.temp.bigVi != nil && wfPoint(round.temp.bigVi) && round.temp.m != nil && val(round.temp.m) >= 0 && round.temp.rx != nil && val(round.temp.rx) >= 0 && round.temp.roi != nil && round.temp.li != nil && round.key.ECDSAPub != nil && wfPoint(round.key.ECDSAPub) && len(round.temp.ssid) <= 4096
+//@   modifies round.number, round.started, round.ok[*], round.temp.Ui, round.temp.Ti, round.temp.DTelda, round.temp.signRound7Messages[*], sent(round.out)
+//@   ensures [C05.a-failing-opening-or-proof-blames-exactly-its-sender] (result != nil && !old(round.started)) ==> (len(result.culprits) == 1 && peerOf(round, result.culprits[0]))
+//@   ensures [C01.nothing-sent-on-error] result != nil ==> sent(old(round.out)) == old(sent(round.out))
+//@   loop 0 invariant round.started && fresh(bigVjs) && fresh(bigAjs) && len(bigVjs) == sgN(round) && len(bigAjs) == sgN(round) && arr(bigVjs) != arr(bigAjs) && sent(round.out) == old(sent(round.out))
+//@   loop 0 invariant forall k in 0..$iter :: (k != sgI(round) ==> (bigVjs[k] != nil && wfPoint(bigVjs[k]) && bigAjs[k] != nil && wfPoint(bigAjs[k])))
+//@   loop 1 invariant round.started && len(bigVjs) == sgN(round) && len(bigAjs) == sgN(round) && VX != nil && VY != nil && AX != nil && AY != nil && sent(round.out) == old(sent(round.out))
+//@   loop 1 invariant forall k in 0..sgN(round) :: (k != sgI(round) ==> (bigVjs[k] != nil && wfPoint(bigVjs[k]) && bigAjs[k] != nil && wfPoint(bigAjs[k])))
+
+// round_9.go: open every peer's (U_j, T_j) commitment and compare the sums.
+//@ define sg7slot(m) = (!isnil(m) && istype(msgcontent(m), "*ecdsa/signing.SignRound7Message") && cast(msgcontent(m), "*ecdsa/signing.SignRound7Message") != nil)
+//@ define sg8slot(m) = (!isnil(m) && istype(msgcontent(m), "*ecdsa/signing.SignRound8Message") && cast(msgcontent(m), "*ecdsa/signing.SignRound8Message") != nil && len(cast(msgcontent(m), "*ecdsa/signing.SignRound8Message").DeCommitment) <= 8192)
+//@ func (*round9).Start
+//@   props C06 C05 C01
+//@   requires round != nil && round.round8 != nil && round.round8.round7 != nil && round.round8.round7.round6 != nil && round.round8.round7.round6.round5 != nil && round.round8.round7.round6.round5.round4 != nil && round.round8.round7.round6.round5.round4.round3 != nil && round.round8.round7.round6.round5.round4.round3.round2 != nil && round.round8.round7.round6.round5.round4.round3.round2.round1 != nil && round.round8.round7.round6.round5.round4.round3.round2.round1.base != nil && ecSignWF(round)
+//@   requires [rounds-7-and-8-complete] forall j in 0..sgN(round) :: (j != sgI(round) ==> (sg7slot(round.temp.signRound7Messages[j]) && sg8slot(round.temp.signRound8Messages[j])))
+//@   requires [own-values] round.temp.Ui != nil && wfPoint(round.temp.Ui) && round.temp.Ti != nil && wfPoint(round.temp.Ti) && round.temp.si != nil
+//@   modifies round.number, round.started, round.ok[*], round.temp.signRound9Messages[*], sent(round.out)
+//@   ensures [C01.nothing-sent-on-error] result != nil ==> sent(old(round.out)) == old(sent(round.out))
+//@   loop 0 invariant round.started && UX != nil && UY != nil && TX != nil && TY != nil && sent(round.out) == old(sent(round.out))
+
+// round_6.go / round_8.go: send-only rounds.
+//@ func (*round6).Start
+//@   props C06 C01
+//@   requires round != nil && round.round5 != nil && round.round5.round4 != nil && round.round5.round4.round3 != nil && round.round5.round4.round3.round2 != nil && round.round5.round4.round3.round2.round1 != nil && round.round5.round4.round3.round2.round1.base != nil && ecSignWF(round)
+//@   requires [own-values] round.temp.roi != nil && val(round.temp.roi) >= 0 && round.temp.bigAi != nil && validPoint(round.temp.bigAi) && round.temp.bigAi.curve == round.Parameters.ec && round.temp.bigVi != nil && validPoint(round.temp.bigVi) && round.temp.bigVi.curve == round.Parameters.ec && round.temp.bigR != nil && validPoint(round.temp.bigR) && round.temp.bigR.curve == round.Parameters.ec && round.temp.si != nil && val(round.temp.si) >= 0 && round.temp.li != nil && val(round.temp.li) >= 0 && len(round.temp.ssid) <= 4096 && cap(round.temp.ssid) == len(round.temp.ssid) && (forall k in 0..len(round.temp.DPower) :: round.temp.DPower[k] != nil)
+//@   modifies round.number, round.started, round.ok[*], round.temp.signRound6Messages[*], sent(round.out)
+//@   ensures [C01.nothing-sent-on-error] result != nil ==> sent(old(round.out)) == old(sent(round.out))
+//@ func (*round8).Start
+//@   props C06 C01
+//@   requires round != nil && round.round7 != nil && round.round7.round6 != nil && round.round7.round6.round5 != nil && round.round7.round6.round5.round4 != nil && round.round7.round6.round5.round4.round3 != nil && round.round7.round6.round5.round4.round3.round2 != nil && round.round7.round6.round5.round4.round3.round2.round1 != nil && round.round7.round6.round5.round4.round3.round2.round1.base != nil && ecSignWF(round)
+//@   requires forall k in 0..len(round.temp.DTelda) :: round.temp.DTelda[k] != nil
+//@   modifies round.number, round.started, round.ok[*], round.temp.signRound8Messages[*], sent(round.out)
+//@   ensures [C01.nothing-sent-on-error] result != nil ==> sent(old(round.out)) == old(sent(round.out))
